@@ -3,7 +3,7 @@ shift widths, sibling loop ranges, ID arithmetic, probe sequences, growth guards
 from core import *
 from rulebase import rule
 from rules_dispatch import kinds, method, FC_KINDS, ORDERED_KINDS
-from rules_serial import SeqBuilder
+from rules_serial import SeqBuilder, bind_single_def_locals
 from rules_iter import pinned_sym
 import symx
 from symx import canon, mk_op, C
@@ -13,12 +13,24 @@ def param_uses(f, pi):
     return [n for n in f.live_nodes() if n["k"] == "DeclRefExpr" and n.get("dk") == "param" and n.get("pi") == pi]
 
 
-@rule("R-CLAMP", 5, "after the `bucketsize < 2` clamp the unclamped parameter value reaches no further use")
+@rule("R-CLAMP", 5, "a bucket size below 2 is replaced: on the clamp path the member ends up with a constant >= 2 (directly or through "
+                    "the re-assigned parameter) and the unclamped parameter value reaches no further use")
 def r_clamp(db, rep):
     for k in FC_KINDS:
-        ctors = [c for c in db.methods_of(k) if c.is_ctor and any(p["n"] == "bucketsize" for p in c.params)]
-        for c in ctors:
-            pi = next(i for i, p in enumerate(c.params) if p["n"] == "bucketsize")
+        for c in db.methods_of(k):
+            if not c.is_ctor or not c.body:
+                continue
+            mwrites = [(lv, w) for lv, w in written_lvalues(c) if access_path(c, lv) == ("this", "bucketsize")]
+            # the bucket-size parameter: the one copied into the member (or, failing that, the one named so)
+            pi = None
+            for lv, w in mwrites:
+                r = strip(w["rhs"]) if w.get("rhs") is not None else None
+                if r is not None and r["k"] == "DeclRefExpr" and r.get("dk") == "param":
+                    pi = r["pi"]
+            if pi is None:
+                pi = next((i for i, p in enumerate(c.params) if p["n"] == "bucketsize"), None)
+            if pi is None:
+                continue
             cfg = c.cfg
             rep.visit(c)
             clamp = None
@@ -29,29 +41,66 @@ def r_clamp(db, rep):
                             strip(sc["lhs"]).get("pi") == pi and strip(sc["lhs"]).get("dk") == "param" and const_value(sc["rhs"]) is not None:
                         clamp = n
                         break
-            rep.inst(c.loc, "%s: clamp of bucketsize" % c.qn)
+            rep.inst(c.loc, "%s: clamp of parameter %s" % (c.qn, c.params[pi]["n"]))
             rep.ob()
             if clamp is None:
                 rep.viol("%s#no-clamp" % c.qn, c.loc, "%s does not replace a bucket size below 2" % c.qn, c.qn)
                 continue
-            # the clamp branch must store a legal constant into the member
-            then_assign = [w for lv, w in written_lvalues(c) if any(x is w for x in walk(clamp["then"])) and
-                           access_path(c, lv) == ("this", "bucketsize")]
+            in_then = lambda x: any(y is x for y in walk(clamp["then"]))
+            pwrites = [(lv, w) for lv, w in written_lvalues(c) if access_path(c, lv) == ("param", pi)]
+            # parameter clamped inside the branch?
+            p_clamped = [w for lv, w in pwrites if in_then(w) and w.get("op") == "=" and (const_value(w.get("rhs")) or 0) >= 2]
+            p_dirty = [w for lv, w in pwrites if w not in p_clamped]
+            then_entry = cfg.position(clamp["then"]["c"][0] if clamp["then"]["k"] == "CompoundStmt" and clamp["then"].get("c") else clamp["then"])
+            mpos = [(cfg.position(w), w) for lv, w in mwrites]
+            mpos = [(p, w) for p, w in mpos if p is not None]
             rep.ob()
-            if not then_assign or any(const_value(w.get("rhs")) is None or const_value(w["rhs"]) < 2 for w in then_assign):
-                rep.viol("%s#clamp-value" % c.qn, c.nloc(clamp), "%s: the clamp branch does not store a bucket size >= 2 into the member" % c.qn, c.qn)
-            # uses of the raw parameter reachable from the clamp-true branch without a re-assignment of the parameter
-            then_pos = cfg.position(then_assign[0]) if then_assign else cfg.position(clamp["then"])
-            reassigns = [cfg.position(w) for lv, w in written_lvalues(c) if access_path(c, lv) == ("param", pi)]
+            bad = None
+            if then_entry is None or not mpos:
+                bad = "the member is never assigned"
+            else:
+                exits = [cfg.exit] if hasattr(cfg, "exit") else []
+                # member writes that can be the last one on a path starting in the clamp branch
+                for pos, w in mpos:
+                    reach = in_then(w) or cfg.path_exists(then_entry, [pos])
+                    if not reach:
+                        continue
+                    others = [p for p, w2 in mpos if w2 is not w]
+                    last = True
+                    if exits:
+                        last = cfg.path_exists(pos, exits, avoid=others)
+                    if not last:
+                        continue
+                    r = strip(w["rhs"]) if w.get("rhs") is not None else None
+                    cv = const_value(w.get("rhs")) if w.get("op") == "=" else None
+                    if cv is not None and cv >= 2:
+                        continue
+                    if r is not None and r["k"] == "DeclRefExpr" and r.get("dk") == "param" and r.get("pi") == pi and p_clamped and not p_dirty \
+                            and not in_then(w):
+                        continue
+                    if r is not None and r["k"] == "DeclRefExpr" and r.get("dk") == "param" and r.get("pi") == pi and in_then(w) and p_clamped and \
+                            cfg.position(p_clamped[0]) is not None and cfg.path_exists(cfg.position(p_clamped[0]), [pos]):
+                        continue
+                    bad = "the value stored at line %s is not a constant >= 2" % w.get("l")
+                if bad is None and exits:
+                    if cfg.path_exists(then_entry, exits, avoid=[p for p, _ in mpos]) and not any(in_then(w) for _, w in mpos):
+                        bad = "a path from the clamp branch to the end of the constructor assigns nothing to the member"
+            if bad is not None:
+                rep.viol("%s#clamp-value" % c.qn, c.nloc(clamp), "%s: a bucket size below 2 does not end up as a legal value in the member: %s" % (c.qn, bad), c.qn)
+            # uses of the raw parameter after the clamp branch (a parameter re-assigned >= 2 in the branch is clean from then on)
+            if p_clamped and not p_dirty:
+                rep.notes.append("%s: the parameter itself is re-assigned in the clamp branch; later uses see the clamped value" % c.qn)
+                continue
+            then_assign = [w for _, w in mpos if in_then(w)]
+            then_pos = cfg.position(then_assign[0]) if then_assign else then_entry
+            reassigns = [cfg.position(w) for lv, w in pwrites]
             reassigns = [r for r in reassigns if r is not None]
             for u in param_uses(c, pi):
                 if any(x is u for x in walk(clamp["cond"])):
                     continue
-                # the else branch `this->bucketsize = bucketsize` is not on the clamp-true path
                 up = cfg.position(u)
                 if up is None or then_pos is None:
                     continue
-                # ignore the write occurrences themselves
                 par = c.parent(u)
                 if par is not None and is_assignment(par) and strip(par["lhs"]) is u:
                     continue
@@ -332,22 +381,32 @@ PROBE_FUNCS = [("Hash", "insert"), ("HashDAC", "insert"), ("Hashdh", "search"), 
                ("HashDAC", "search"), ("StringDictionaryHASHRPDAC", "locate"), ("StringDictionaryHASHRPF", "locate")]
 
 
+def definitions(f):
+    """(target access path, rhs node, defining node) for every plain assignment and every initialised declaration in f."""
+    for n in f.live_nodes():
+        if n["k"] == "DeclStmt":
+            for d in n["decls"]:
+                if d.get("init") is not None and "d" in d:
+                    yield ("local", d["d"]), d["init"], n
+        elif is_assignment(n) and n.get("op") == "=" and n.get("rhs") is not None:
+            yield access_path(f, n["lhs"]), n["rhs"], n
+
+
 def probe_signature(db, f):
     """(start var, hash fn, step fn, modulus field name, recurrence kind) of a double-hashing walk in f, plus problems."""
     probs = []
     start = step = None
     mod = set()
-    for n in f.live_nodes():
-        if n["k"] == "DeclStmt":
-            for d in n["decls"]:
-                ini = strip(d.get("init")) if d.get("init") is not None else None
-                if ini is not None and ini["k"] == "CallExpr" and callee_name(ini) in ("bitwisehash", "step_value") and len(ini.get("args", [])) == 3:
-                    p = access_path(f, ini["args"][2])
-                    m = p[-1] if p else None
-                    if callee_name(ini) == "bitwisehash":
-                        start = (d["d"], ini, m, [access_path(f, a) for a in ini["args"][:2]])
-                    else:
-                        step = (d["d"], ini, m, [access_path(f, a) for a in ini["args"][:2]])
+    for tgt, rhs, w in definitions(f):
+        ini = strip(rhs)
+        if tgt is not None and tgt[0] == "local" and len(tgt) == 2 and ini["k"] == "CallExpr" and \
+                callee_name(ini) in ("bitwisehash", "step_value") and len(ini.get("args", [])) == 3:
+            p = resolved_path(f, ini["args"][2])
+            m = p[-1] if p else None
+            if callee_name(ini) == "bitwisehash":
+                start = (tgt[1], ini, m, [resolved_path(f, a) for a in ini["args"][:2]])
+            else:
+                step = (tgt[1], ini, m, [resolved_path(f, a) for a in ini["args"][:2]])
     if start is None or step is None:
         return None, ["no bitwisehash/step_value pair"]
     if start[2] != "tsize" or step[2] != "tsize":
@@ -356,17 +415,15 @@ def probe_signature(db, f):
         probs.append("hash and step are computed over different (string, length) arguments")
     # advance statements: x = (a + b) % T
     adv = []
-    for lv, w in written_lvalues(f):
-        if w.get("op") != "=" or w.get("rhs") is None:
-            continue
-        r = strip(w["rhs"])
+    for tgt, rhs, w in definitions(f):
+        r = strip(rhs)
         if r["k"] == "BinaryOperator" and r["op"] == "%":
-            tp = access_path(f, r["rhs"])
+            tp = resolved_path(f, r["rhs"])
             sb = SeqBuilder(db, f, "c", nosubst=True)
+            sb.mode = "x"           # keep locals as atoms here: the walk's own variables are what is being related
             for key in (start[0], step[0]):
                 sb.env[("local", key)] = ("local", key)
             num = symx.poly(sb.sym(r["lhs"]))
-            tgt = access_path(f, lv)
             adv.append((w, tgt, num, tp[-1] if tp else None, r))
     if not adv:
         return None, ["no probe advance statement"]
@@ -385,15 +442,24 @@ def probe_signature(db, f):
                 other = [k_ for k_ in keys if k_ != (hs,)][0]
                 if len(other) == 2 and ss in other and keys[other] == 1:
                     iv = [x for x in other if x != ss][0]
-                    # loop variable initialised to 1 and incremented by one
-                    for ln in f.live_nodes():
-                        if ln["k"] == "ForStmt" and any(x is w for x in walk(ln["body"])):
-                            ini = ln.get("init")
-                            if ini is not None and ini["k"] == "DeclStmt" and ini["decls"] and "L%d" % ini["decls"][0].get("d", -1) == iv and \
-                                    const_value(ini["decls"][0].get("init")) == 1:
-                                inc = strip(ln.get("inc")) if ln.get("inc") is not None else None
-                                if inc is not None and inc["k"] == "UnaryOperator" and inc["op"] == "++":
-                                    ok = True
+                    # the counter starts at 1 and is incremented by one per round: all its definitions are `= 1` (one, outside the
+                    # loop) and `++` / `+= 1` (inside the loop that contains the advance)
+                    ivd = int(iv[1:]) if iv.startswith("L") and iv[1:].isdigit() else None
+                    loop = next((a for a in f.ancestors(w) if a["k"] in ("ForStmt", "WhileStmt", "DoStmt")), None)
+                    if ivd is not None and loop is not None:
+                        inits, incs, other_w = [], [], []
+                        for tg2, rhs2, w2 in definitions(f):
+                            if tg2 == ("local", ivd):
+                                inits.append((rhs2, w2))
+                        for lv2, w2 in written_lvalues(f):
+                            if access_path(f, lv2) == ("local", ivd):
+                                if (w2["k"] == "UnaryOperator" and w2["op"] == "++") or (w2.get("op") == "+=" and const_value(w2.get("rhs")) == 1):
+                                    incs.append(w2)
+                                elif not (w2.get("op") == "="):
+                                    other_w.append(w2)
+                        in_loop = lambda x: any(y is x for y in walk(loop.get("body") or loop)) or (loop.get("inc") is not None and any(y is x for y in walk(loop["inc"])))
+                        if len(inits) == 1 and const_value(inits[0][0]) == 1 and not in_loop(inits[0][1]) and len(incs) == 1 and in_loop(incs[0]) and not other_w:
+                            ok = True
             if ok:
                 kinds_.append("closed form (h+i*s)%T, i=1..")
             else:
@@ -1080,12 +1146,16 @@ def r_samplecount(db, rep):
 
     def norm(f, e, nmap):
         sbx = SeqBuilder(db, f, "c", nosubst=True)
-        for x in walk(e):
-            p = access_path(f, x) if x["k"] in ("DeclRefExpr", "MemberExpr") else None
-            if p is not None and p[-1] in nmap:
-                sbx.env[p] = ("global", nmap[p[-1]])
-            elif p is not None and x["k"] == "DeclRefExpr" and x.get("n") in nmap:
-                sbx.env[p] = ("global", nmap[x["n"]])
+
+        def seed(expr):
+            for x in walk(expr):
+                p = access_path(f, x) if x["k"] in ("DeclRefExpr", "MemberExpr") else None
+                if p is not None and p[-1] in nmap:
+                    sbx.env[p] = ("global", nmap[p[-1]])
+                elif p is not None and x["k"] == "DeclRefExpr" and x.get("n") in nmap:
+                    sbx.env[p] = ("global", nmap[x["n"]])
+        seed(e)
+        bind_single_def_locals(sbx, e, seed)
         return canon(sbx.sym(e))
     # allocation in build_bwt
     for lv, w in written_lvalues(bw):
